@@ -390,6 +390,9 @@ func init() {
 	vp("Tok", func(e *Exec, _ *frame, a []Value) Value { return oneOf(e, e.argStr(a[0]), e.varargs(a[1])) })
 	vp("Kind", func(e *Exec, _ *frame, a []Value) Value { return oneOf(e, e.argStr(a[0]), e.varargs(a[1])) })
 	chooseIn := func(e *Exec, name string, n int) int {
+		if iv, ok := e.inputIdx[name]; ok && iv.Kind == "choose" {
+			return int(iv.Term.u) // the same named choice again: same value (as natively)
+		}
 		i := e.choose(n)
 		e.addInput(name, "choose", e.tb.BV(64, uint64(i)))
 		return i
